@@ -112,6 +112,9 @@ def audit(ctx):
             if pat.search(code):
                 problems.append(f"{os.path.relpath(f, VERIF)}:{n}: {line.strip()}")
     thms = {}
+    rc, out = sh([sys.executable, os.path.join(VERIF, "scripts/gen_audit.py")], cwd=VERIF)
+    if rc != 0:
+        problems.append("gen_audit failed: " + out[-500:])
     if os.path.exists(os.path.join(LEAN, "Audit.lean")):
         rc, out = sh(["lake", "env", "lean", "Audit.lean"], cwd=LEAN)
         cur = None
@@ -212,6 +215,8 @@ def main():
         for p in au["problems"]:
             broken.append("audit: " + p)
     my_thms = {t: a for t, a in au["theorems"].items() if re.search(rf"\b{prop}_", t) or t.startswith(f"SaoVerif.{prop}.")}
+    if not fails and not my_thms:
+        broken.append(f"audit: no theorem named {prop}_* was checked (lean/SaoVerif/Properties/{prop}.lean missing or not imported)")
     # runs
     known = [k for k in load_known() if k.get("property") == prop]
     hits, mism, steps_total, compared, opcount, rescount = [], [], 0, 0, {}, {}
